@@ -438,4 +438,11 @@ def run(ck, tier):
         ck.guard(r7_add_appends, ck, cx, kind, kcls, 'R9')
     ck.assume('request.execute may raise any Exception; context lookup may raise NoSuchSlaveException; other statements of execute() are treated as non-raising')
     ck.assume('byte-exact output streams over generated request histories are not decided')
+    from .. import ownership as _own
+    ck.guard(_own.rule_instance_owned, ck, cx, 'R14', _own.DECODERS[:1], 'a request for a function only another server registered is executed and answered here', 2)
+    from .c17 import r8_handler_bound_to_its_server
+    ck.guard(r8_handler_bound_to_its_server, ck, cx, 'R15')
+    from ..share import import_findings as _imp
+    ck.rule('R16', 'the server keeps the context object it was given: `context or default` is sound only while ModbusServerContext defines neither __len__ nor __bool__ (shared with C10 R7)')
+    _imp(ck, 'C10', 'R16', ('R7',), 'the server then answers requests for units it does not host (from a private default context) instead of staying silent / answering with a gateway exception')
     return cx.idx
